@@ -273,6 +273,10 @@ func childExec(reqJSON string) {
 			sc.Bodies = append(sc.Bodies, ops[i].f)
 		}
 		x := e2.InProcess(sc)(rq.Prefix, rq.Conflict)
+		if x.Diverged {
+			fmt.Fprintln(os.Stderr, "replay divergence in a fresh process: the execution is not deterministic")
+			os.Exit(3)
+		}
 		resp = execResp{Choices: x.Choices, Pts: x.Pts, Results: x.Results, Deadlock: x.Deadlock, Horizon: x.Horizon, Acc: x.Acc, PointsSeen: x.PointsSeen}
 	}
 	resp.Fixtures = fixtureDigest()
@@ -392,7 +396,9 @@ func exploreCase(c *drv.Ctx, i int64, kind string, idx []int, be e2.Backend, bou
 		budget = 2 * time.Second // this tree makes every scenario expensive: keep the run bounded
 	}
 	st, v := e2.Explore(name, be, bound, exp, 20000, budget)
-	if st.Capped {
+	if st.Diverged {
+		c.Cap("in-process replay diverged: library state persists between executions of one process (such scenarios are decided by fresh-pairs, where every execution starts a new process)")
+	} else if st.Capped {
 		cappedSoFar++
 		c.Cap(fmt.Sprintf("scenario time budget reached (bound completed: %d)", st.BoundCompleted))
 	}
